@@ -97,6 +97,10 @@ pub struct SpanRec {
     pub kind: SpanKind,
     pub start: usize,
     pub end: usize,
+    /// text runs only: the start / end that also counts an EMPTY CDATA section at the edge of the run as a part
+    /// (the statement's "first to last merged text or CDATA part" allows either reading)
+    pub alt_start: Option<usize>,
+    pub alt_end: Option<usize>,
 }
 
 #[derive(Clone, Debug, Default)]
@@ -277,13 +281,32 @@ impl<'c> Out<'c> {
     }
 
     /// a text node: one or more plain / CDATA parts; returns (start, end) of the run as SpanInfo defines it
-    fn text_node(&mut self, text: &str) -> (usize, usize) {
+    /// an empty CDATA section: a spelling of no characters at all
+    fn maybe_empty_cdata(&mut self) -> Option<usize> {
+        if self.opts.plain || self.opts.enumerating || !self.ch.chance(1, 12) {
+            return None;
+        }
+        self.raw("<![CDATA[");
+        let p = self.pos();
+        self.raw("]]>");
+        self.feat("empty-cdata-section");
+        Some(p)
+    }
+
+    fn text_node(&mut self, text: &str) -> (usize, usize, Option<usize>, Option<usize>) {
         let chars: Vec<char> = text.chars().collect();
         let mut i = 0;
         let mut start: Option<usize> = None;
         let mut end = self.pos();
         let mut parts = 0;
+        let mut alt_start: Option<usize> = None;
+        let mut alt_end: Option<usize> = None;
         while i < chars.len() {
+            if let Some(p) = self.maybe_empty_cdata() {
+                if start.is_none() && alt_start.is_none() {
+                    alt_start = Some(p);
+                }
+            }
             // part length
             let remaining = chars.len() - i;
             let len = if self.opts.plain { remaining } else if self.opts.enumerating {
@@ -329,10 +352,13 @@ impl<'c> Out<'c> {
             parts += 1;
             i += len;
         }
+        if !chars.is_empty() {
+            alt_end = self.maybe_empty_cdata();
+        }
         if parts > 1 {
             self.feat("text-in-several-parts");
         }
-        (start.unwrap_or(end), end)
+        (start.unwrap_or(end), end, alt_start, alt_end)
     }
 
     /// attribute value between quotes; returns (start, end) of the text between the quotes
@@ -542,8 +568,8 @@ fn node(out: &mut Out, n: &ANode, scope: &mut Scope, path: &mut Vec<usize>) {
     match n.kind {
         AKind::Doc => {}
         AKind::Text => {
-            let (s, e) = out.text_node(&n.text);
-            out.spans.push(SpanRec { path: path.clone(), kind: SpanKind::Text, start: s, end: e });
+            let (s, e, alt_s, alt_e) = out.text_node(&n.text);
+            out.spans.push(SpanRec { path: path.clone(), kind: SpanKind::Text, start: s, end: e, alt_start: alt_s, alt_end: alt_e });
         }
         AKind::Comment => {
             out.raw("<!--");
@@ -551,20 +577,20 @@ fn node(out: &mut Out, n: &ANode, scope: &mut Scope, path: &mut Vec<usize>) {
             out.raw(&n.text);
             let e = out.pos();
             out.raw("-->");
-            out.spans.push(SpanRec { path: path.clone(), kind: SpanKind::Comment, start: s, end: e });
+            out.spans.push(SpanRec { path: path.clone(), kind: SpanKind::Comment, start: s, end: e, alt_start: None, alt_end: None });
         }
         AKind::Pi => {
             out.raw("<?");
             let s = out.pos();
             out.raw(&n.name.local);
             let e = out.pos();
-            out.spans.push(SpanRec { path: path.clone(), kind: SpanKind::PiTarget, start: s, end: e });
+            out.spans.push(SpanRec { path: path.clone(), kind: SpanKind::PiTarget, start: s, end: e, alt_start: None, alt_end: None });
             if let Some(d) = &n.data {
                 out.ws(true);
                 let s = out.pos();
                 out.raw(d);
                 let e = out.pos();
-                out.spans.push(SpanRec { path: path.clone(), kind: SpanKind::PiContent, start: s, end: e });
+                out.spans.push(SpanRec { path: path.clone(), kind: SpanKind::PiContent, start: s, end: e, alt_start: None, alt_end: None });
             } else if !out.opts.plain && out.ch.chance(1, 4) {
                 out.raw(" ");
             }
@@ -592,7 +618,7 @@ fn element(out: &mut Out, n: &ANode, scope: &mut Scope, path: &mut Vec<usize>) {
     let s = out.pos();
     out.raw(&qn);
     let e = out.pos();
-    out.spans.push(SpanRec { path: path.clone(), kind: SpanKind::ElemStart, start: s, end: e });
+    out.spans.push(SpanRec { path: path.clone(), kind: SpanKind::ElemStart, start: s, end: e, alt_start: None, alt_end: None });
     // interleave declarations and attributes, each list keeping its own order
     let mut di = 0;
     let mut ai = 0;
@@ -642,13 +668,13 @@ fn element(out: &mut Out, n: &ANode, scope: &mut Scope, path: &mut Vec<usize>) {
             let s = out.pos();
             out.raw(&an);
             let e = out.pos();
-            out.spans.push(SpanRec { path: path.clone(), kind: SpanKind::AttrName(q.clone()), start: s, end: e });
+            out.spans.push(SpanRec { path: path.clone(), kind: SpanKind::AttrName(q.clone()), start: s, end: e, alt_start: None, alt_end: None });
             out.ws(false);
             out.raw("=");
             out.ws(false);
             let is_id = q.ns == XML_NS && q.local == "id";
             let (s, e) = out.att_value(v, is_id);
-            out.spans.push(SpanRec { path: path.clone(), kind: SpanKind::AttrValue(q.clone()), start: s, end: e });
+            out.spans.push(SpanRec { path: path.clone(), kind: SpanKind::AttrValue(q.clone()), start: s, end: e, alt_start: None, alt_end: None });
         }
     }
     out.ws(false);
@@ -656,7 +682,7 @@ fn element(out: &mut Out, n: &ANode, scope: &mut Scope, path: &mut Vec<usize>) {
         let s = out.pos();
         out.raw("/>");
         let e = out.pos();
-        out.spans.push(SpanRec { path: path.clone(), kind: SpanKind::ElemEnd, start: s, end: e });
+        out.spans.push(SpanRec { path: path.clone(), kind: SpanKind::ElemEnd, start: s, end: e, alt_start: None, alt_end: None });
     } else {
         if n.children.is_empty() {
             out.feat("empty-element-with-end-tag");
@@ -673,7 +699,7 @@ fn element(out: &mut Out, n: &ANode, scope: &mut Scope, path: &mut Vec<usize>) {
         out.ws(false);
         out.raw(">");
         let e = out.pos();
-        out.spans.push(SpanRec { path: path.clone(), kind: SpanKind::ElemEnd, start: s, end: e });
+        out.spans.push(SpanRec { path: path.clone(), kind: SpanKind::ElemEnd, start: s, end: e, alt_start: None, alt_end: None });
     }
     scope.pop_n(pushed);
 }
